@@ -259,6 +259,7 @@ int main(void)
             int ci; char peer[64]; sscanf(line, "%*s c%d %63s", &ci, peer);
             if (ci >= 0 && ci < MAXC) { socks[ci] = Sim_newPeer(peer); if (ci >= nsocks) nsocks = ci + 1; peer_ns[ci] = 0; peer_seen[ci] = 0; }
         }
+        else if (!strcmp(cmd, "mark")) { char m[32] = ""; sscanf(line, "%*s %31s", m); printf("mark %s\n", m); }   /* echo: lets an oracle cut the trace into phases */
         else if (!strcmp(cmd, "tick")) {
             int n = 1; sscanf(line, "%*s %d", &n);
             for (int i = 0; i < n && slave; i++) CS104_Slave_tick(slave);
